@@ -199,7 +199,7 @@ func visitInstr(fr *frame, instr ssa.Instruction) continuation {
 		if g, ok := instr.Addr.(*ssa.Global); ok {
 			w.markGlobalStored(g)
 		}
-		store(mustDeref(instr.Addr.Type()), addr, fr.get(instr.Val))
+		w.storeLogged(mustDeref(instr.Addr.Type()), addr, fr.get(instr.Val))
 
 	case *ssa.If:
 		succ := 1
@@ -337,6 +337,7 @@ func visitInstr(fr *frame, instr ssa.Instruction) continuation {
 			if m == nil {
 				panic(targetPanicMsg("assignment to entry in nil map"))
 			}
+			w.logMap(m)
 			m.insert(w, key, v)
 		default:
 			panic(fmt.Sprintf("illegal map type: %T", m))
@@ -553,7 +554,7 @@ func runFrame(fr *frame) {
 		}
 		p := recover()
 		if isPkgInit(fr.fn) {
-			if ab, ok := p.(engineAbort); !ok || ab.kind != abStop {
+			if ab, ok := p.(engineAbort); !ok || (ab.kind != abStop && ab.kind != abRetry) {
 				// a variable initialiser could not be executed: poison that
 				// variable and resume with the next initialiser
 				if fr.w.skipFailedInitialiser(fr, p) {
